@@ -14,7 +14,7 @@ theorem c12_model_eq_spec (u0 d cueDur : Nat) (h0 : 0 < cueDur) (h1 : cueDur ≤
     calcCueItvls u0 d cueDur = some (specCues u0 d cueDur) := by
   unfold calcCueItvls specCues
   have hf : (cueDur + 999) / 1000 = 1 := by omega
-  simp only [hf, Nat.one_ne_zero, ↓reduceIte, Nat.one_mul, Nat.div_one]
+  simp only [hf, Nat.one_ne_zero, ↓reduceIte, Nat.one_mul, Nat.mul_one, Nat.div_one]
   have hle : u0 / 1000 ≤ (u0 + d) / 1000 := Nat.div_le_div_right (Nat.le_add_right _ _)
   simp only [Nat.not_lt.mpr hle, ↓reduceIte]
   have hfun : cueOf u0 (u0 + d) cueDur = specCue u0 (u0 + d) cueDur := by
@@ -138,10 +138,13 @@ theorem c12_ttml_time (ms : Nat) :
     f.1 * 3600000 + f.2.1 * 60000 + f.2.2.1 * 1000 + f.2.2.2 = ms ∧ f.2.1 < 60 ∧ f.2.2.1 < 60 ∧ f.2.2.2 < 1000 := by
   simp only [ttmlFields]; omega
 
-/-- **Finding** (cue durations above one second): segment `[98 s, 100 s)`, `timesubsdur_1500` — no cue at all,
-although the UTC seconds 98 and 99 intersect the segment: the loop variable is in units of `ceil(cueDur/1000)` s
-but is used as seconds (it is 49 here), so the only candidate cue lies 49 s before the segment. -/
-theorem c12_long_cues_counterexample : calcCueItvls 98000 2000 1500 = some [] := by decide
+/-- **Finding** (cue durations above one second): there is only one cue every `ceil(cueDur/1000)` seconds (the
+repository's own test `TestCalcCueItvls/long_cue` fixes this design).  Segment `[98 s, 100 s)`, `timesubsdur_1500`: a
+single cue showing second 98; second 99 intersects the segment but has no cue, so "exactly one cue for each UTC second"
+does not hold for such durations.  (Before the `fix:` commit the loop mixed units and this segment had no cue at all.) -/
+theorem c12_long_cues_counterexample :
+    calcCueItvls 98000 2000 1500 = some [⟨98000, 99500, 98⟩] ∧
+    (specCues 98000 2000 1000).map (·.utcS) = [98, 99] := by decide
 
 /-- non-vacuity: segment [12.9 s, 14.9 s), cue 800 ms: the cue of second 12 ended before the segment (skipped),
 seconds 13 and 14 are shown. -/
